@@ -346,9 +346,13 @@ func (ld *Layerdefs) findLayerstate(layer *Layerinfo) {
 		return
 	}
 
+	numNeeded := len(layer.ConfigMounts)
+	if len(base) > 0 {
+		numNeeded++
+	}
 	if numMounted == 0 {
 		layer.State = Layerstate_mountable
-	} else if numMounted < len(layer.ConfigMounts) {
+	} else if numMounted < numNeeded {
 		layer.State = Layerstate_partialmount
 	} else if layer.MountBusy || layer.Overlain {
 		layer.State = Layerstate_mounted_busy
